@@ -34,6 +34,24 @@ pub fn keygen(n: usize, seed: [u8; 32]) -> (Sk, Pk) {
     }
 }
 
+/// A key pair from the operating system's randomness: `SecretKey::generate()` and the public key
+/// derived from it.
+pub fn generate(n: usize) -> (Sk, Pk) {
+    match n {
+        512 => {
+            let s = falcon512::SecretKey::generate();
+            let p = falcon512::PublicKey::from_secret_key(&s);
+            (Sk::F512(s), Pk::F512(p))
+        }
+        1024 => {
+            let s = falcon1024::SecretKey::generate();
+            let p = falcon1024::PublicKey::from_secret_key(&s);
+            (Sk::F1024(s), Pk::F1024(p))
+        }
+        _ => panic!("harness: n must be 512 or 1024"),
+    }
+}
+
 pub fn sign(msg: &[u8], sk: &Sk) -> Sig {
     match sk {
         Sk::F512(s) => Sig::F512(falcon512::sign(msg, s)),
